@@ -54,8 +54,26 @@ def run(ck, facts):
 
     droppy = droppy_adts(rt)
 
-    # ---- R1 inventory
+    # ---- R1 inventory (grouped: by the runtime type an impl belongs to, by exported symbol, or `helpers` for private free/nested fns;
+    #      robust against moving code between methods of one type, extracting helpers, moving exported fns between modules)
+    ADTS = ["DiplomatOwnedUTF8StrSlice", "DiplomatUtf8StrSlice", "DiplomatOwnedSlice", "DiplomatSliceMut", "DiplomatSlice", "DiplomatResult", "DiplomatWrite", "DiplomatCallback"]
+
+    def group_of(f):
+        is_impl = bool(f.get("impl_self") or f.get("impl_trait") or "<impl " in f["path"] or f["path"].startswith("<"))
+        if is_impl:
+            s_ = f["path"] + " " + (f.get("impl_self") or "") + " " + (f.get("impl_trait") or "")
+            hits = []
+            for a in ADTS:
+                if re.search(r"\b%s\b" % a, s_):
+                    hits.append(a)
+                    s_ = re.sub(r"\b%s\b" % a, "", s_)
+            if hits:
+                return "type:" + "+".join(sorted(hits))
+        if f.get("no_mangle"):
+            return "export:" + f["name"]
+        return "helpers"
     inv = {}
+    where_ = {}
     mirfns = {}
     for f in rt.fn_list:
         mir = f.get("mir")
@@ -66,26 +84,29 @@ def run(ck, facts):
         for bb, t in m.calls():
             cal = C.mir_callee(t) or ""
             if OWN_RE.search(cal) and not t.get("exp_dbg"):
-                inv.setdefault(f["path"], {}).setdefault(short(cal), 0)
-                inv[f["path"]][short(cal)] += 1
+                g = group_of(f)
+                inv.setdefault(g, {}).setdefault(short(cal), 0)
+                inv[g][short(cal)] += 1
+                where_.setdefault((g, short(cal)), []).append(f)
     spec_p = os.path.join(C.VERIF, "spec", "ownership.json")
     if os.environ.get("VERIF_DUMP_OWNERSHIP"):
         print(json.dumps(inv, indent=1, sort_keys=True))
     if not os.path.exists(spec_p):
         raise C.CheckError("spec/ownership.json missing")
-    spec = json.load(open(spec_p))["sites"]
-    for fn, ops in sorted(inv.items()):
+    spec = json.load(open(spec_p))["groups"]
+    for g, ops in sorted(inv.items()):
         for op, n in sorted(ops.items()):
-            exp = spec.get(fn, {}).get(op, {}).get("count")
-            key = "%s/%s" % (fn, op)
-            if exp is None:
-                ck.bad("R1", key, "untriaged ownership operation %s (x%d) in %s: who releases the value now?" % (op, n, fn), C.loc(rt.fns[fn]))
+            ent = spec.get(g, {}).get(op)
+            key = "%s/%s" % (g, op)
+            fs = where_[(g, op)]
+            if ent is None:
+                ck.bad("R1", key, "untriaged ownership operation %s (x%d) in %s (%s): who releases the value now?" % (op, n, g, ", ".join(sorted({x["path"] for x in fs}))[:200]), C.loc(fs[0]))
             else:
-                ck.expect(n == exp, "R1", key, spec[fn][op].get("role", ""), "%s occurs %d times in %s, the triaged table has %d" % (op, n, fn, exp), C.loc(rt.fns[fn]))
-    for fn, ops in spec.items():
-        for op, d in ops.items():
-            if inv.get(fn, {}).get(op) is None:
-                ck.bad("R1", "%s/%s" % (fn, op), "triaged ownership operation vanished: %s in %s (role: %s)" % (op, fn, d.get("role", "")))
+                ck.expect(n <= ent["count"], "R1", key, "; ".join(ent.get("roles", []))[:160],
+                          "%s occurs %d times in %s, the triaged table allows %d: a new unsafe ownership operation must be triaged" % (op, n, g, ent["count"]), C.loc(fs[0]))
+    gone = sorted("%s/%s" % (g, op) for g, ops in spec.items() for op in ops if inv.get(g, {}).get(op) is None)
+    if gone:
+        ck.note("triaged ownership operations no longer present (accepted; lost releases are the business of R2b/R3): %s" % gone)
     ck.floor("R1", 20)
 
     # ---- R2 typestate
@@ -204,7 +225,7 @@ def run(ck, facts):
                           "on the is_ok=%s edge Drop releases %s (expected exactly the `%s` payload, dropped): leak or wrong arm" % (is_ok_edge, rel, want), C.loc(f))
 
     # ---- R3 pairing
-    cr = rt.fn("write::diplomat_buffer_write_create")
+    cr = rt.fn("diplomat_buffer_write_create")
     mc = mirfns[cr["path"]]
     names = [C.mir_callee(t) or "" for _, t in mc.calls()]
     ck.expect(sum(n.endswith("mem::forget") for n in names) == 1 and sum(n.endswith("Box::into_raw") for n in names) == 1 and
@@ -213,13 +234,13 @@ def run(ck, facts):
     agg = None
     for b in mc.mir["blocks"]:
         for s in b["stmts"]:
-            if s["k"] == "assign" and s["rv"]["k"] == "agg" and (s["rv"].get("adt") or "").endswith("write::DiplomatWrite"):
+            if s["k"] == "assign" and s["rv"]["k"] == "agg" and (s["rv"].get("adt") or "").endswith("::DiplomatWrite"):
                 agg = dict(zip(s["rv"]["fnames"], [mc.sym_op(o) for o in s["rv"]["ops"]]))
     if agg:
         bufv = sym_strip(agg["buf"])
         ck.expect(isinstance(bufv, tuple) and bufv[0] == "call" and str(bufv[1]).endswith("::as_mut_ptr") and sym_is_arg(agg["cap"], 1),
                   "R3", "buffer_write_create/fields", "buf = vec.as_mut_ptr(), cap = cap", "create stores buf=%s cap=%s" % (sym_show(agg["buf"]), sym_show(agg["cap"])), C.loc(cr))
-    de = rt.fn("write::diplomat_buffer_write_destroy")
+    de = rt.fn("diplomat_buffer_write_destroy")
     md = mirfns[de["path"]]
     dn = {}
     for bb, t in md.calls():
@@ -362,5 +383,5 @@ def run_thorough(ck, facts):
     thorough.witnesses(ck, "T1", "c03")
     alt = thorough.altcfg_runtime()
     ck.units.append("diplomat_runtime.lib built with --no-default-features (MIR)")
-    sub = C.SubCheck(ck, "T2", "the runtime-level rules hold as well for diplomat-runtime compiled without its optional features (what a no-jvm, no-log dependent links)", ['R1', 'R2', 'R2b', 'R2c', 'R3'])
+    sub = C.SubCheck(ck, "T2", "the runtime-level rules hold as well for diplomat-runtime compiled without its optional features (what a no-jvm, no-log dependent links; the inventory R1 is per configuration and not repeated)", ['R2', 'R2b', 'R2c', 'R3'])
     run(sub, alt)
